@@ -129,6 +129,14 @@ func supersetOf(srt, a, b string, depth int) string {
 	return fmt.Sprintf("(forall ((%s %s)) %s)", x, k, supersetOf(v, app("select", a, x), app("select", b, x), depth+1))
 }
 
+func (vc *VC) scratch(comp string) bool {
+	if !strings.HasPrefix(comp, "G:") {
+		return false
+	}
+	gv := vc.P.ghostVars[strings.TrimPrefix(comp, "G:")]
+	return gv != nil && gv.Scratch
+}
+
 func (vc *VC) monotone(comp string) bool {
 	if !strings.HasPrefix(comp, "G:") {
 		return false
